@@ -1269,3 +1269,470 @@ Proof.
   - apply reachable_same; auto. unfold h2. rewrite apply_edits_length. apply frame_noninplace; auto.
   - intros a R. apply F. eapply reachable_lt; eauto.
 Qed.
+
+(* ------------------------------------------------------------------ Part C : confinement logic (every mode)
+   Every NEW object references only new objects or objects that were reachable from the arguments; old objects are
+   not written (calls that are not in place).  Hence whatever is reachable from a result is new or was reachable
+   from the arguments: no other pre-existing state (module level or unrelated) can leak into a result. *)
+Section ConfineR.
+Variable h0 : heap.
+Variable args : list addr.
+
+Definition freshR (a : addr) : Prop := length h0 <= a.
+Definition QR (a : addr) : Prop := length h0 <= a \/ reachable h0 args a.
+
+Definition invR (h1 : heap) : Prop :=
+  length h0 <= length h1 /\
+  (forall a, a < length h0 -> get h1 a = get h0 a) /\
+  (forall a, length h0 <= a -> Forall QR (refs (get h1 a))).
+
+Definition okR {A} (fr : A -> Prop) (m : M A) : Prop :=
+  forall h1, invR h1 -> invR (fst (m h1)) /\ fr (snd (m h1)).
+
+Lemma fresh_QR a : freshR a -> QR a.
+Proof. intros H; left; exact H. Qed.
+
+Lemma Forall_fresh_QR l : Forall freshR l -> Forall QR l.
+Proof. apply Forall_impl. exact fresh_QR. Qed.
+
+Lemma invR_refl : (forall a, length h0 <= a -> Forall QR (refs (get h0 a))) -> invR h0.
+Proof. intros H. split; [lia|]. split; auto. Qed.
+
+Lemma QR_refs h1 a : invR h1 -> QR a -> Forall QR (refs (get h1 a)).
+Proof.
+  intros (L & F & C) [Fa|Ra]; [now apply C|].
+  pose proof (reachable_lt _ _ _ Ra) as La. rewrite F by auto.
+  apply Forall_forall. intros b Ib.
+  destruct (Nat.lt_ge_cases b (length h0)) as [Lb|Lb]; [right; eapply reach_step; eauto | left; exact Lb].
+Qed.
+
+Lemma okR_ret {A} (fr : A -> Prop) x : fr x -> okR fr (ret x).
+Proof. intros H h1 I. simpl. auto. Qed.
+
+Lemma okR_bind {A B} (fa : A -> Prop) (fb : B -> Prop) (m : M A) (k : A -> M B) :
+  okR fa m -> (forall x, fa x -> okR fb (k x)) -> okR fb (bind m k).
+Proof.
+  intros Hm Hk h1 I. unfold bind. cbv zeta. destruct (Hm h1 I) as [I2 F]. exact (Hk _ F _ I2).
+Qed.
+
+Lemma okR_weaken {A} (f1 f2 : A -> Prop) m : (forall x, f1 x -> f2 x) -> okR f1 m -> okR f2 m.
+Proof. intros H Hm h1 I. destruct (Hm h1 I); auto. Qed.
+
+Lemma okR_true {A} (fr : A -> Prop) m : okR fr m -> okR (fun _ => True) m.
+Proof. apply okR_weaken; auto. Qed.
+
+Lemma okR_alloc o : Forall QR (refs o) -> okR freshR (alloc o).
+Proof.
+  intros R h1 (L & F & C). unfold alloc; simpl.
+  assert (LL : length (h1 ++ [o]) = S (length h1)) by (rewrite app_length; simpl; lia).
+  split; [split; [lia|split]|exact L].
+  - intros a La. rewrite get_app_old by lia. auto.
+  - intros a La. destruct (Nat.lt_ge_cases a (length h1)) as [X|X].
+    + rewrite get_app_old by auto. auto.
+    + destruct (Nat.eq_dec a (length h1)) as [->|N]; [now rewrite get_app_new|].
+      rewrite get_dangling by lia. constructor.
+Qed.
+
+Lemma okR_write a o : freshR a -> Forall QR (refs o) -> okR (fun _ => True) (write a o).
+Proof.
+  intros Fa R h1 (L & F & C). unfold write; simpl. split; [split; [now rewrite upd_length|split]|auto].
+  - intros b Lb. rewrite get_upd_other; [auto|]. unfold freshR in Fa. lia.
+  - intros b Lb. destruct (Nat.eq_dec a b) as [<-|N].
+    + destruct (Nat.lt_ge_cases a (length h1)) as [X|X]; [now rewrite get_upd_same|].
+      rewrite upd_dangling by auto. auto.
+    + rewrite get_upd_other by auto. auto.
+Qed.
+
+Lemma okR_read a : QR a -> okR (fun o => Forall QR (refs o)) (read a).
+Proof. intros Qa h1 I. simpl. split; [exact I|]. now apply QR_refs. Qed.
+
+Lemma okR_read_any a : okR (fun _ => True) (read a).
+Proof. intros h1 I. simpl. auto. Qed.
+
+Lemma okR_mapM {A B} (fr : B -> Prop) (f : A -> M B) l :
+  (forall x, In x l -> okR fr (f x)) -> okR (Forall fr) (mapM f l).
+Proof.
+  induction l as [|x r IH]; intros H; simpl.
+  - apply okR_ret; constructor.
+  - eapply okR_bind; [apply H; left; auto|]. intros y Fy.
+    eapply okR_bind; [apply IH; intros; apply H; right; auto|]. intros ys Fys.
+    apply okR_ret. constructor; auto.
+Qed.
+
+Ltac rbind := eapply okR_bind; [|intros ? ?; cbv beta in *].
+
+Lemma Forall_concat {A} (P : A -> Prop) (ls : list (list A)) : Forall (Forall P) ls -> Forall P (concat ls).
+Proof. induction 1; simpl; [constructor|apply Forall_app; auto]. Qed.
+
+Lemma Forall_incl {A} (P : A -> Prop) (l l' : list A) : incl l l' -> Forall P l' -> Forall P l.
+Proof. intros I F. rewrite Forall_forall in *. auto. Qed.
+
+Lemma copy_leaf_R a : okR freshR (copy_leaf a).
+Proof. unfold copy_leaf. rbind; [apply okR_read_any|]. apply okR_alloc. destruct x; simpl; constructor. Qed.
+
+Lemma copy_list_R a : okR freshR (copy_list a).
+Proof.
+  unfold copy_list. rbind; [apply okR_read_any|].
+  destruct x; try (apply okR_alloc; constructor).
+  rbind; [apply okR_mapM; intros; apply copy_leaf_R|]. apply okR_alloc. simpl. now apply Forall_fresh_QR.
+Qed.
+
+Lemma copy_basis_R b : okR freshR (copy_basis b).
+Proof.
+  unfold copy_basis. rbind; [apply okR_read_any|].
+  destruct x; try (apply okR_alloc; constructor).
+  rbind; [apply okR_mapM; intros; apply copy_list_R|]. apply okR_alloc. simpl. now apply Forall_fresh_QR.
+Qed.
+
+Lemma copy_op_R deep a : QR a -> okR freshR (copy_op deep a).
+Proof.
+  intros Qa. unfold copy_op. rbind; [apply okR_read; exact Qa|].
+  destruct x; try (apply okR_alloc; constructor).
+  destruct basis as [b|]; [|apply okR_alloc; constructor].
+  destruct deep.
+  - rbind; [apply copy_basis_R|]. apply okR_alloc. simpl. constructor; [now apply fresh_QR|constructor].
+  - apply okR_alloc. simpl in *. exact H.
+Qed.
+
+Lemma ops_of_R c : QR c -> okR (Forall QR) (ops_of c).
+Proof.
+  intros Qc. unfold ops_of. rbind; [apply okR_read; exact Qc|]. apply okR_ret.
+  destruct x; simpl in *; auto; constructor.
+Qed.
+
+Lemma cregs_of_R c : okR (fun _ => True) (cregs_of c).
+Proof. unfold cregs_of. rbind; [apply okR_read_any|]. now apply okR_ret. Qed.
+
+Definition fresh_co (co : addr * list addr) : Prop := freshR (fst co) /\ Forall freshR (snd co).
+
+Lemma circuit_copy_R deep c : QR c -> okR fresh_co (circuit_copy deep c).
+Proof.
+  intros Qc. unfold circuit_copy. rbind; [apply ops_of_R; exact Qc|]. rbind; [apply cregs_of_R|].
+  rbind; [apply okR_mapM; intros a Ia; apply copy_op_R; rewrite Forall_forall in H; auto|].
+  rbind; [apply okR_alloc; simpl; now apply Forall_fresh_QR|].
+  apply okR_ret. split; auto.
+Qed.
+
+Lemma new_gate_R : okR freshR new_gate.
+Proof. apply okR_alloc. constructor. Qed.
+
+Lemma new_list_R n : okR freshR (new_list n).
+Proof.
+  unfold new_list. rbind; [apply okR_mapM; intros; apply new_gate_R|]. apply okR_alloc. simpl. now apply Forall_fresh_QR.
+Qed.
+
+Lemma new_basis_R : okR freshR new_basis.
+Proof.
+  unfold new_basis. rbind; [apply okR_mapM; intros; apply new_list_R|]. apply okR_alloc. simpl. now apply Forall_fresh_QR.
+Qed.
+
+Lemma new_qpd2_R l : okR (fun gb => freshR (fst gb) /\ freshR (snd gb)) (new_qpd2 l).
+Proof.
+  unfold new_qpd2. rbind; [apply new_basis_R|].
+  rbind; [apply okR_alloc; simpl; constructor; [now apply fresh_QR|constructor]|].
+  apply okR_ret; auto.
+Qed.
+
+Lemma set_op_R c i g : freshR c -> QR g -> okR (fun _ => True) (set_op c i g).
+Proof.
+  intros Fc Qg. unfold set_op. rbind; [apply ops_of_R; now apply fresh_QR|]. rbind; [apply cregs_of_R|].
+  apply okR_write; auto. simpl. eapply Forall_incl; [apply incl_upd|]. constructor; auto.
+Qed.
+
+Lemma insert_op_R c i g : freshR c -> QR g -> okR (fun _ => True) (insert_op c i g).
+Proof.
+  intros Fc Qg. unfold insert_op. rbind; [apply ops_of_R; now apply fresh_QR|]. rbind; [apply cregs_of_R|].
+  apply okR_write; auto. simpl. eapply Forall_incl; [apply incl_insert|]. constructor; auto.
+Qed.
+
+Lemma pcq_loop_R c spans (P : addr -> Prop) : freshR c -> (forall a, freshR a -> P a) -> (forall a, P a -> QR a) ->
+  forall ops i, Forall P ops -> okR (Forall P) (pcq_loop c i ops spans).
+Proof.
+  intros Fc FP PQ. induction ops as [|a r IH]; intros i F; simpl.
+  - apply okR_ret; constructor.
+  - inversion F as [|? ? Pa Fr]; subst.
+    rbind; [apply okR_read_any|].
+    eapply okR_bind with (fa := P).
+    + destruct (nth i spans false && negb (is_qpd2 x)).
+      * rbind; [apply new_qpd2_R|]. destruct H0 as [G1 G2]. rbind; [apply set_op_R; [auto|now apply fresh_QR]|]. apply okR_ret. now apply FP.
+      * now apply okR_ret.
+    + intros a' Pa'. rbind; [apply IH; auto|]. apply okR_ret. constructor; auto.
+Qed.
+
+Lemma pcq_R m c spans : QR c -> okR fresh_co (partition_circuit_qubits m false c spans).
+Proof.
+  intros Qc. unfold partition_circuit_qubits, target. rbind; [apply circuit_copy_R; exact Qc|].
+  destruct H as [Fc Fo].
+  rbind; [apply (pcq_loop_R (fst x) spans freshR); auto using fresh_QR|].
+  apply okR_ret. split; auto.
+Qed.
+
+Lemma cut_one_R c gid : freshR c -> okR freshR (cut_one c gid).
+Proof.
+  intros Fc. unfold cut_one. rbind; [apply new_qpd2_R|]. destruct H as [G1 G2].
+  rbind; [apply set_op_R; [auto|now apply fresh_QR]|]. now apply okR_ret.
+Qed.
+
+Lemma cut_gates_R m c gids : QR c -> okR (fun cb => freshR (fst cb) /\ freshR (snd cb)) (cut_gates m false c gids).
+Proof.
+  intros Qc. unfold cut_gates, target. rbind; [apply circuit_copy_R; exact Qc|]. destruct H as [Fc Fo].
+  rbind; [apply okR_mapM; intros; apply cut_one_R; auto|].
+  rbind; [apply okR_alloc; simpl; now apply Forall_fresh_QR|]. apply okR_ret. auto.
+Qed.
+
+Lemma relabel_loop_R : forall ops i, Forall freshR ops -> okR (Forall QR) (relabel_loop ops i).
+Proof.
+  induction ops as [|a r IH]; intros i F; simpl.
+  - apply okR_ret; constructor.
+  - inversion F as [|? ? Fa Fr]; subst.
+    rbind; [apply okR_read; now apply fresh_QR|].
+    destruct x; try (apply IH; auto).
+    destruct k; try (apply IH; auto). destruct basis as [b|]; try (apply IH; auto).
+    simpl in H. inversion H as [|? ? Qb _]; subst.
+    rbind; [apply okR_write; auto; simpl; constructor; auto|].
+    rbind; [apply IH; auto|]. apply okR_ret. constructor; auto.
+Qed.
+
+Lemma sub_piece_R l a s : QR a -> okR (Forall QR) (sub_piece l a s).
+Proof.
+  intros Qa. unfold sub_piece. rbind; [apply okR_read; exact Qa|].
+  assert (D : okR (Forall QR) (if Nat.eqb (fst s) l then (x0 <- copy_op false a ;; ret [x0]) else ret [])).
+  { destruct (Nat.eqb (fst s) l); [|apply okR_ret; constructor].
+    rbind; [apply copy_op_R; exact Qa|]. apply okR_ret. constructor; [now apply fresh_QR|constructor]. }
+  destruct x; auto. destruct k; auto. destruct basis as [b|]; auto.
+  simpl in H. inversion H as [|? ? Qb _]; subst.
+  eapply okR_bind with (fa := Forall QR).
+  - destruct (Nat.eqb (fst s) l); [|apply okR_ret; constructor].
+    rbind; [apply okR_alloc; simpl; constructor; auto|]. apply okR_ret. constructor; [now apply fresh_QR|constructor].
+  - intros p0 F0. eapply okR_bind with (fa := Forall QR).
+    + destruct (Nat.eqb (snd s) l); [|apply okR_ret; constructor].
+      rbind; [apply okR_alloc; simpl; constructor; auto|]. apply okR_ret. constructor; [now apply fresh_QR|constructor].
+    + intros p1 F1. apply okR_ret. apply Forall_app; auto.
+Qed.
+
+Lemma build_sub_R ops sides l : Forall QR ops -> okR freshR (build_sub ops sides l).
+Proof.
+  intros Fo. unfold build_sub.
+  rbind; [apply okR_mapM; intros [a s] Ias; apply sub_piece_R; rewrite Forall_forall in Fo; apply Fo; eapply in_combine_l; eauto|].
+  apply okR_alloc. simpl. now apply Forall_concat.
+Qed.
+
+Lemma sub_obs_R p l : okR freshR (sub_obs p l).
+Proof. unfold sub_obs. rbind; [apply okR_read_any|]. apply okR_alloc. destruct x; simpl; constructor. Qed.
+
+Lemma partition_problem_R m c spans sides nl obs : QR c -> okR (Forall QR) (partition_problem m c spans sides nl obs).
+Proof.
+  intros Qc. unfold partition_problem. rbind; [apply pcq_R; exact Qc|]. destruct H as [Fc Fo]. cbv zeta.
+  rbind; [apply relabel_loop_R; auto|].
+  rbind; [apply okR_mapM; intros; apply build_sub_R; now apply Forall_fresh_QR|].
+  rbind; [apply okR_alloc; simpl; now apply Forall_fresh_QR|].
+  rbind; [apply okR_alloc; simpl; auto|].
+  destruct obs as [p|].
+  - rbind; [apply okR_mapM; intros; apply sub_obs_R|].
+    rbind; [apply okR_alloc; simpl; now apply Forall_fresh_QR|].
+    apply okR_ret. repeat (apply Forall_cons; [now apply fresh_QR|]); apply Forall_nil.
+  - apply okR_ret. repeat (apply Forall_cons; [now apply fresh_QR|]); apply Forall_nil.
+Qed.
+
+Lemma wire_piece_R m a : QR a -> okR QR (wire_piece m a).
+Proof.
+  intros Qa. unfold wire_piece. rbind; [apply okR_read_any|].
+  assert (D : okR QR (if fix10 m then copy_op true a else ret a)).
+  { destruct (fix10 m); [eapply okR_weaken; [apply fresh_QR|apply copy_op_R; exact Qa]|now apply okR_ret]. }
+  destruct x; auto. destruct k; auto.
+  - eapply okR_weaken; [apply fresh_QR|]. apply okR_alloc. constructor.
+  - rbind; [apply new_qpd2_R|]. destruct H0 as [G1 G2]. apply okR_ret. now apply fresh_QR.
+Qed.
+
+Lemma cut_wires_R m c : QR c -> okR freshR (cut_wires m c).
+Proof.
+  intros Qc. unfold cut_wires. rbind; [apply ops_of_R; exact Qc|]. rbind; [apply cregs_of_R|].
+  rbind; [apply okR_mapM; intros a Ia; apply wire_piece_R; rewrite Forall_forall in H; auto|].
+  apply okR_alloc. simpl. exact H1.
+Qed.
+
+Lemma expand_R o c1 c2 : okR freshR (expand_observables o c1 c2).
+Proof. unfold expand_observables. rbind; [apply okR_read_any|]. apply okR_alloc. destruct x; simpl; constructor. Qed.
+
+Lemma insert_markers_R c : freshR c -> forall wires, okR (fun _ => True) (insert_markers c wires).
+Proof.
+  intros Fc. induction wires as [|p r IH]; simpl; [now apply okR_ret|].
+  rbind; [apply okR_alloc; constructor|]. rbind; [apply insert_op_R; [auto|now apply fresh_QR]|]. apply IH.
+Qed.
+
+Lemma find_cuts_R m c gids wires : QR c -> okR (fun cm => freshR (fst cm) /\ freshR (snd cm)) (find_cuts m c gids wires).
+Proof.
+  intros Qc. unfold find_cuts. rbind; [apply cut_gates_R; exact Qc|]. destruct H as [Fc Fb].
+  rbind; [apply insert_markers_R; auto|]. rbind; [apply okR_alloc; constructor|]. apply okR_ret. auto.
+Qed.
+
+Lemma set_bid_R a j : freshR a -> okR (fun _ => True) (set_bid a j).
+Proof.
+  intros Fa. unfold set_bid. rbind; [apply okR_read; now apply fresh_QR|].
+  destruct x; try now apply okR_ret. apply okR_write; auto.
+Qed.
+
+Lemma set_bids_R ops : Forall freshR ops -> forall ids mids, okR (fun _ => True) (set_bids ops ids mids).
+Proof.
+  intros F. induction ids as [|g ir IH]; intros [|j jr]; simpl; try now apply okR_ret.
+  rbind.
+  - destruct (nth_error ops g) as [a|] eqn:E; [|now apply (okR_ret (fun _ => True))].
+    apply set_bid_R. rewrite Forall_forall in F. apply F. eapply nth_error_In; eauto.
+  - apply IH.
+Qed.
+
+Lemma slot_item_R m a : QR a -> okR QR (slot_item m a).
+Proof.
+  intros Qa. unfold slot_item. rbind; [apply okR_read_any|].
+  assert (D : okR QR (if fix11 m then copy_leaf a else ret a)).
+  { destruct (fix11 m); [eapply okR_weaken; [apply fresh_QR|apply copy_leaf_R]|now apply okR_ret]. }
+  destruct x; auto. destruct k; auto.
+  eapply okR_weaken; [apply fresh_QR|]. apply okR_alloc. constructor.
+Qed.
+
+Lemma slot_ops_R m maps i : Forall QR maps -> okR (Forall QR) (slot_ops m maps i).
+Proof.
+  intros Fm. unfold slot_ops. destruct (nth_error maps i) as [la|] eqn:E; [|apply okR_ret; constructor].
+  assert (Ql : QR la) by (rewrite Forall_forall in Fm; apply Fm; eapply nth_error_In; eauto).
+  rbind; [apply okR_read; exact Ql|].
+  destruct x; try (apply okR_ret; constructor).
+  apply okR_mapM. intros a Ia. apply slot_item_R. simpl in H. rewrite Forall_forall in H. auto.
+Qed.
+
+Lemma splice_piece_R m a : QR a -> okR (Forall QR) (splice_piece m a).
+Proof.
+  intros Qa. unfold splice_piece. rbind; [apply okR_read; exact Qa|].
+  destruct x; try (apply okR_ret; constructor).
+  destruct bid as [j|], basis as [b|].
+  - simpl in H. inversion H as [|? ? Qb _]; subst.
+    rbind; [apply okR_read; exact Qb|].
+    destruct x; try (apply okR_ret; constructor).
+    destruct k; try (apply okR_ret; constructor).
+    + rbind; [apply slot_ops_R; exact H0|]. rbind; [apply slot_ops_R; exact H0|]. apply okR_ret. apply Forall_app; auto.
+    + apply slot_ops_R. exact H0.
+  - apply okR_ret. apply Forall_cons; [exact Qa|apply Forall_nil].
+  - apply okR_ret. apply Forall_nil.
+  - apply okR_ret. apply Forall_cons; [exact Qa|apply Forall_nil].
+Qed.
+
+Lemma dqi_body_R m c ops ids mids : freshR c -> Forall freshR ops -> okR (fun _ => True) (dqi_body m c ops ids mids).
+Proof.
+  intros Fc Fo. unfold dqi_body. rbind; [apply set_bids_R; auto|].
+  rbind; [apply okR_mapM; intros a Ia; apply splice_piece_R; apply fresh_QR; rewrite Forall_forall in Fo; auto|].
+  rbind; [apply cregs_of_R|]. apply okR_write; auto. simpl. now apply Forall_concat.
+Qed.
+
+Lemma dqi_R m c ids mids : QR c -> okR freshR (decompose_qpd_instructions m false c ids mids).
+Proof.
+  intros Qc. unfold decompose_qpd_instructions, target. rbind; [apply circuit_copy_R; exact Qc|]. destruct H as [Fc Fo].
+  rbind; [apply dqi_body_R; auto|]. now apply okR_ret.
+Qed.
+
+Lemma qpd_ids_of_R ops : okR (fun _ => True) (qpd_ids_of ops).
+Proof. intros h1 I. simpl. auto. Qed.
+
+Lemma one_experiment_R m c mids : QR c -> okR freshR (one_experiment m c mids).
+Proof.
+  intros Qc. unfold one_experiment. rbind; [apply circuit_copy_R; exact Qc|]. destruct H as [Fc Fo].
+  rbind; [apply qpd_ids_of_R|]. rbind; [apply dqi_body_R; auto|]. now apply okR_ret.
+Qed.
+
+Lemma experiments_for_sample_R m circs ng ci sample : Forall QR circs ->
+  okR (Forall QR) (experiments_for_sample m circs ng ci sample).
+Proof.
+  intros Fc. unfold experiments_for_sample. rbind.
+  - apply okR_mapM with (fr := Forall QR). intros [[c g] cidx] I.
+    assert (Qc : QR c).
+    { rewrite Forall_forall in Fc. apply Fc. apply in_combine_l in I. apply in_combine_l in I. exact I. }
+    eapply okR_weaken; [apply Forall_fresh_QR|]. apply okR_mapM. intros; now apply one_experiment_R.
+  - apply okR_ret. now apply Forall_concat.
+Qed.
+
+Lemma generate_R m circs obs samples ng ci : Forall QR circs ->
+  okR (Forall QR) (generate_cutting_experiments m circs obs samples ng ci).
+Proof.
+  intros Fc. unfold generate_cutting_experiments.
+  rbind; [apply okR_mapM; intros; now apply experiments_for_sample_R|].
+  rbind; [apply okR_alloc; simpl; now apply Forall_concat|].
+  rbind; [apply okR_alloc; constructor|].
+  apply okR_ret. repeat (apply Forall_cons; [now apply fresh_QR|]); apply Forall_nil.
+Qed.
+
+Lemma reconstruct_R rs co obs : okR freshR (reconstruct rs co obs).
+Proof. unfold reconstruct. apply okR_alloc. constructor. Qed.
+
+Lemma separate_R m c sides nl : QR c -> okR (Forall QR) (separate_circuit m c sides nl).
+Proof.
+  intros Qc. unfold separate_circuit. rbind; [apply ops_of_R; exact Qc|]. rbind; [apply cregs_of_R|].
+  rbind.
+  - apply okR_mapM with (fr := freshR). intros l _. unfold sep_sub.
+    rbind; [|apply okR_alloc; simpl; apply Forall_concat; exact H1].
+    apply okR_mapM with (fr := Forall QR). intros [a s] Ias. unfold sep_piece; simpl.
+    destruct (Nat.eqb (fst s) l); [|apply okR_ret; constructor].
+    rbind; [apply copy_op_R; rewrite Forall_forall in H; apply H; eapply in_combine_l; eauto|].
+    apply okR_ret. constructor; [now apply fresh_QR|constructor].
+  - rbind; [apply okR_alloc; simpl; now apply Forall_fresh_QR|].
+    rbind; [apply okR_alloc; constructor|].
+    apply okR_ret. repeat (apply Forall_cons; [now apply fresh_QR|]); apply Forall_nil.
+Qed.
+
+End ConfineR.
+
+(* ---- Part C, final statement *)
+Lemma args_QR h roots : Forall (QR h roots) roots.
+Proof.
+  apply Forall_forall. intros a Ia.
+  destruct (Nat.lt_ge_cases a (length h)) as [L|L]; [right; now apply reach_root | left; exact L].
+Qed.
+
+Lemma run_R h m cl : in_place cl = false ->
+  okR h (args_of cl) (Forall (QR h (args_of cl))) (run m cl).
+Proof.
+  intros NI. pose proof (args_QR h (args_of cl)) as QA. rewrite Forall_forall in QA.
+  destruct cl; simpl in NI; subst; unfold run.
+  - eapply okR_bind; [apply pcq_R; apply QA; simpl; auto|]. intros x [Fc _]. apply okR_ret.
+    apply Forall_cons; [now apply fresh_QR|apply Forall_nil].
+  - eapply okR_bind; [apply cut_gates_R; apply QA; simpl; auto|]. intros x [F1 F2]. apply okR_ret.
+    apply Forall_cons; [now apply fresh_QR|]. apply Forall_cons; [now apply fresh_QR|apply Forall_nil].
+  - apply partition_problem_R. apply QA; simpl; auto.
+  - eapply okR_bind; [apply cut_wires_R; apply QA; simpl; auto|]. intros x Fx. apply okR_ret.
+    apply Forall_cons; [now apply fresh_QR|apply Forall_nil].
+  - eapply okR_bind; [apply expand_R|]. intros x Fx. apply okR_ret.
+    apply Forall_cons; [now apply fresh_QR|apply Forall_nil].
+  - eapply okR_bind; [apply find_cuts_R; apply QA; simpl; auto|]. intros x [F1 F2]. apply okR_ret.
+    apply Forall_cons; [now apply fresh_QR|]. apply Forall_cons; [now apply fresh_QR|apply Forall_nil].
+  - apply generate_R. apply Forall_forall. intros c Ic. apply QA. simpl. apply in_or_app; left; exact Ic.
+  - eapply okR_bind; [apply dqi_R; apply QA; simpl; auto|]. intros x Fx. apply okR_ret.
+    apply Forall_cons; [now apply fresh_QR|apply Forall_nil].
+  - eapply okR_bind; [apply reconstruct_R|]. intros x Fx. apply okR_ret.
+    apply Forall_cons; [now apply fresh_QR|apply Forall_nil].
+  - apply separate_R. apply QA; simpl; auto.
+Qed.
+
+(* whatever is reachable from a result - in EVERY mode, in particular on the model of the current tree - is a new
+   object or was reachable from the arguments of the call *)
+Lemma result_confined m h cl : in_place cl = false ->
+  forall a, reachable (fst (run m cl h)) (snd (run m cl h)) a ->
+            length h <= a \/ reachable h (args_of cl) a.
+Proof.
+  intros NI.
+  assert (I0 : invR h (args_of cl) h).
+  { apply invR_refl. intros a La. rewrite get_dangling by exact La. constructor. }
+  destruct (run_R h m cl NI h I0) as [I F].
+  intros a R. induction R as [a Ia La | a b Ra IH Ib Lb].
+  - rewrite Forall_forall in F. exact (F a Ia).
+  - pose proof (QR_refs h (args_of cl) _ a I IH) as Fr. rewrite Forall_forall in Fr. exact (Fr b Ib).
+Qed.
+
+(* two calls on disjoint argument graphs: their results share nothing old (no hidden common state in the model) *)
+Lemma results_share_only_arguments m m' h cl cl' : in_place cl = false -> in_place cl' = false ->
+  let h1 := fst (run m cl h) in
+  forall a, a < length h ->
+    reachable h1 (snd (run m cl h)) a -> reachable (fst (run m' cl' h1)) (snd (run m' cl' h1)) a ->
+    reachable h (args_of cl) a /\ reachable h1 (args_of cl') a.
+Proof.
+  intros NI NI' h1 a La R1 R2. split.
+  - destruct (result_confined m h cl NI a R1) as [X|X]; [lia|exact X].
+  - destruct (result_confined m' h1 cl' NI' a R2) as [X|X]; [|exact X].
+    pose proof (proj1 (frame_noninplace m h cl NI)). unfold h1 in X. lia.
+Qed.
